@@ -42,6 +42,7 @@ class _TableMixin:
     def _table_fit(self, X):
         X = np.asarray(X)
         self.n_ = X.shape[0]
+        self.seen_ = X            # what the detector handed to the scorer (C11, C10)
         self.requested_ = []
         if X.ndim == 2 and X.shape[1] != self.p and not self.any_p:
             raise AssertionError(f"table scorer built for p={self.p} fitted on p={X.shape[1]}")
